@@ -24,7 +24,8 @@ RULE = ("one run = shaped GFA1 graph (match-only / '*' overlaps) + scheduled del
         "mutations + merge_linear_paths twice; distinct = distinct (end-graph digest, order) pairs")
 PROBES = ["gfa2_graph", "mixed_sequences", "chain_ge3", "mixed_orientation_chain", "branching_junction", "cycle", 
           "hairpin_on_end", "two_chains_one_junction", "without_sequences", "merged_something", "merged_name_in_use",
-          "nothing_to_merge", "after_mutation", "idempotent_checked", "star_overlap", "other_lines_present"]
+          "nothing_to_merge", "after_mutation", "idempotent_checked", "star_overlap", "other_lines_present",
+          "twin_unnamed_edges"]
 
 
 def oend(o, out=True):
@@ -64,6 +65,7 @@ def gen_shape(rng, k):
                 links.append((y[0], gtext.inv(y[1]), x[0], gtext.inv(x[1]), ov()))
         if n >= 3 and rng.random() < 0.15:
             links.append((ch[-1][0], ch[-1][1], ch[0][0], ch[0][1], ov()))     # cycle
+    n_chain_links = len(links)
     # junction / extra links between random ends
     for _ in range(rng.randint(0, 5)):
         a, b = rng.choice(segs), rng.choice(segs)
@@ -80,6 +82,12 @@ def gen_shape(rng, k):
             continue
         seen.add(key)
         ulinks.append(l)
+    # GFA2 only: identical parallel edges without identifier (GFA1 refuses an equal link)
+    twin = None
+    if version == "gfa2" and rng.random() < 0.3:
+        cand = [l for l in ulinks if l in links[n_chain_links:]]
+        if cand:
+            twin = rng.choice(cand)
     lines = []
     seglen = {}
     for s in segs:
@@ -101,8 +109,10 @@ def gen_shape(rng, k):
             la, lb = seglen[a], seglen[b]
             b1, e1 = (la - n, la) if oa == "+" else (0, n)
             b2, e2 = (0, n) if ob == "+" else (lb - n, lb)
-            lines.append("\t".join(["E", "e%d" % j if rng.random() < 0.7 else "*", a + oa, b + ob, G.pos_str(b1, la), G.pos_str(e1, la),
-                                    G.pos_str(b2, lb), G.pos_str(e2, lb), c]))
+            lines.append("\t".join(["E", "e%d" % j if (rng.random() < 0.7 and l is not twin) else "*", a + oa, b + ob,
+                                    G.pos_str(b1, la), G.pos_str(e1, la), G.pos_str(b2, lb), G.pos_str(e2, lb), c]))
+            if l is twin:
+                lines.append(lines[-1])
     if version == "gfa2":
         if rng.random() < 0.3 and len(segs) >= 2:
             a, b = rng.sample(segs, 2)
@@ -416,6 +426,9 @@ def probes(eg, paths, cycles, st):
     d = eg.deg()
     if any(v >= 2 for v in d.values()):
         st.count("probe.branching_junction")
+    raws = [l[5] for l in eg.links]
+    if len(set(raws)) < len(raws):
+        st.count("probe.twin_unnamed_edges")
     if cycles:
         st.count("probe.cycle")
     ends = set()
